@@ -15,7 +15,9 @@ proved from: the hash input being an injective encoding of the recorded pairs (`
 for ALL names and values — what the pinned tree lacked), the naming of everything StoreResponse writes
 (`store_names_what_it_writes`, `naming_invariant`), and ONE assumption that no proof can remove: the
 64-bit FNV-1a hash does not collide on the variant descriptions that occur for the URI and does not map
-one of them to the reserved "0" (`HashSeparates`). PARTIAL in that sense, and in that "the entry found
+one of them to the reserved "0" (`HashSeparates`) — `hash_separation_fails_on_a_witness` exhibits a pair of
+header values for which it is false, and the implementation then serves the wrong variant (known finding,
+replayed by the `collide` generator class). PARTIAL in that sense, and in that "the entry found
 under an id is one that some StoreResponse wrote under that id" is the backend being a map (C14), not
 re-proved here; the monitor checks pairing on the implementation by body-token provenance.
 -/
@@ -96,6 +98,21 @@ example : HashSeparates fnv64a [[], [(str% "X-A", str% "1")], [(str% "X-A", str%
     [(str% "X-A", str% "1"), (str% "X-B", str% "2")], [(str% "X-A", str% "1X-B2")]] := by
   unfold HashSeparates
   constructor <;> decide
+
+/-- … and it is NOT a theorem: a 64-bit hash cannot separate all descriptions, and here is a pair of
+    request values on which FNV-1a does collide (found by a distinguished-point search, 42 s on 16 cores).
+    On the implementation the second request overwrites the entry of the first under the shared id while
+    both references stay in the index, and the first request is then served the second one's response —
+    the replay of the known finding "C04 variant identifier collision" (known_findings.json; the repair,
+    dropping every other reference with the identifier just written, is one line but contradicts a pinned
+    unit test that gives two variants one identifier on purpose, so it is recorded, not applied). -/
+theorem hash_separation_fails_on_a_witness :
+    ¬ HashSeparates fnv64a [[(str% "X-A", str% "cf64c0a33b0b080a")], [(str% "X-A", str% "94d63610ceb73809")]] := by
+  intro h
+  have hc : fnv64a (varyHashInput [(str% "X-A", str% "cf64c0a33b0b080a")]) =
+      fnv64a (varyHashInput [(str% "X-A", str% "94d63610ceb73809")]) := by decide +kernel
+  have := h.1 _ (List.mem_cons_self) _ (List.mem_cons_of_mem _ List.mem_cons_self) hc
+  revert this; decide
 
 /-- Regression examples (tests): the pinned tree's collision, a "*" list member, two Vary lines. -/
 example : makeVaryKey (str% "k") [(str% "X-A", str% "1"), (str% "X-B", str% "2")] ≠
